@@ -829,7 +829,9 @@ def run_optimizer(chk):
         for p in nplanes:
             vecs = differing_vectors(f, chk.seed, p)
             if cfgt["quick"] and k["variant"] in ("sections", "loops"):
-                vecs = vecs[:1]            # quick tier: the two fusion passes alone get one (differing) vector per plane
+                if p != 1:
+                    continue               # quick tier: the two fusion passes alone run on one plane, one (differing) vector
+                vecs = vecs[:1]
             pairs.append({"mode": "equiv", "a": k["name"], "b": f["name"], "pa": p, "pb": p, "inimode": "list", "extra": vecs})
         by_label.setdefault(k["label"], {})[k["variant"]] = k
     # `no pass` against `licm alone` directly, for the kernels where licm did something
